@@ -26,7 +26,7 @@ import json
 import time as _time
 
 from harness import common
-from harness.planners import ilp
+from harness.planners import _worlds, ilp
 
 NAME = "ilpbatch"
 PROPS = {"C10", "C11", "C12"}
@@ -849,8 +849,15 @@ def gen_specs(prop: str, rng, tier: str, widened=False) -> list[dict]:
     r = rng.sub(f"ilpbatch/{prop}/{'w' if widened else 'n'}")
     specs = list(corpus())
     kinds = [KIND[prop]] if not widened else ["mix", "dag", "deadline"]
+    n_corpus = len(specs)
     while len(specs) < n:
         specs.append(gen_world(r, r.choice(kinds)))
+    # flavour (harness/planners/_worlds.py): the real TaskGraph is built in a random, mostly non-topological
+    # declaration order in a share of the worlds (own random stream: the base worlds stay what they were)
+    fr = rng.sub(f"ilpbatch/{prop}/{'w' if widened else 'n'}/flavours")
+    for spec in specs[n_corpus:]:
+        if fr.random() < 0.35:
+            _worlds.shuffle_decl(spec, fr)
     return specs
 
 
